@@ -595,6 +595,9 @@ def main_check(cid, tier, base_seed, jobs=None):
         lines.append('  kind=%s seed=%s idx=%d minimised_in=%d runs; %s' % (
             best_res['kind'], case['seed'], r['idx'], runs, '; '.join(notes)))
         lines.append('  ' + (best_res['message'] or '')[:600])
+    if os.environ.get('VERIF_DIGEST_OUT'):
+        with open(os.environ['VERIF_DIGEST_OUT'], 'w') as f:
+            json.dump([[r['idx'], r['status'], r['digest'], r['key']] for r in results], f)
     determinism = determinism_check(mod, tier, base_seed, results) if results else {}
     if determinism.get('mismatches'):
         herr.append('determinism self-test failed: %r' % determinism['mismatches'][:2])
